@@ -488,11 +488,13 @@ func CheckCalls(pc *PathCtx) {
 		have[c.Name]++
 	}
 	pc.count(true)
+	// custom functions are assumed pure: calls with identical arguments are logged once. Every position is
+	// served by a call (value obligations above); there may not be more distinct calls than positions.
 	for fn, n := range want {
-		if have[fn] != n {
+		if have[fn] > n || have[fn] == 0 {
 			pc.Rep.Discharged--
 			m, _ := pc.R.Witness(nil)
-			pc.Report("calls", fn, fmt.Sprintf("custom function %s called %d times, the mapping has %d positions for it", fn, have[fn], n), m, false)
+			pc.Report("calls", fn, fmt.Sprintf("custom function %s called with %d distinct argument lists, the mapping has %d positions for it", fn, have[fn], n), m, false)
 			return
 		}
 	}
